@@ -6,6 +6,7 @@ from dataclasses import InitVar, dataclass, field
 from enum import Enum, Flag, IntEnum, IntFlag
 from decimal import Decimal
 from math import inf, nan
+import threading
 from typing import Any, NamedTuple
 
 import attrs
@@ -251,6 +252,14 @@ class RaisingEq:
         return f"RaisingEq({self.n!r})"
 
 
+@dataclass
+class Locky:
+    """cannot be deep-copied (it holds a lock that takes no part in repr / ==), but has a mutable part"""
+
+    items: Any
+    lock: Any = field(default_factory=threading.Lock, repr=False, compare=False)
+
+
 class SelfCopy:
     """__deepcopy__ returns the object itself, but the object is not even equal to itself (like float nan)"""
 
@@ -298,7 +307,7 @@ def mutate_in_place(v, depth=0):
 
 
 __all__ = [
-    "IdentityEq", "LossyCopy", "SelfCopy", "RaisingEq", "MyList", "Decimal", "nan", "mutate_in_place", "APriv", "PAlias", "DInit", "make_dinit",
+    "IdentityEq", "LossyCopy", "SelfCopy", "RaisingEq", "MyList", "Locky", "Decimal", "nan", "mutate_in_place", "APriv", "PAlias", "DInit", "make_dinit",
     "Color", "Level", "Perm", "Outer", "Point", "FPoint", "Box", "APoint", "AFrozen",
     "PModel", "NT", "TNT", "Opaque", "Vec", "defaultdict", "inf", "Hidden", "AHidden", "PHidden", "PExtra", "IVar", "SubPoint", "Point3", "IPerm", "OrderedDict", "Counter",
 ]
